@@ -314,16 +314,99 @@ fn fill_strategy() -> BoxedStrategy<FillCase> {
     .boxed()
 }
 
+
+// ---------------------------------------------------------------------------
+// far from the origin: the answer does not depend on where the shape sits
+
+#[derive(Clone, Debug, Serialize, Deserialize)]
+pub struct FarCase {
+    /// a shape within [0,16]^2 ...
+    pub path: PathSpec,
+    /// ... moved by this much (whole units, up to +-3900)
+    pub tx: f32,
+    pub ty: f32,
+    pub tol: f32,
+}
+
+/// f64 reference: winding number of the query against the f64 walker's outline of the *translated* path (its f32
+/// coordinates as given to the library); queries closer to the outline than 0.3 + 8 x tolerance are not judged.
+pub fn check_far(c: &FarCase) -> CheckResult {
+    let mut o = Outcome::new();
+    o.fp = fp_of(c);
+    let mv = |x: f32, y: f32| (x + c.tx, y + c.ty);
+    let moved = PathSpec {
+        ops: c.path.ops.iter().map(|op| match *op {
+            POp::M(x, y) => { let p = mv(x, y); POp::M(p.0, p.1) }
+            POp::L(x, y) => { let p = mv(x, y); POp::L(p.0, p.1) }
+            POp::Q(a, b, x, y) => { let (p, q) = (mv(a, b), mv(x, y)); POp::Q(p.0, p.1, q.0, q.1) }
+            POp::C(a, b, cc, d, x, y) => { let (p, q, r) = (mv(a, b), mv(cc, d), mv(x, y)); POp::C(p.0, p.1, q.0, q.1, r.0, r.1) }
+            POp::Z => POp::Z,
+        }).collect(),
+        evenodd: c.path.evenodd,
+    };
+    let path = moved.build();
+    let subs = crate::geom::walk(&moved, &IDENT);
+    let polys = crate::geom::fine(&subs, 0.02);
+    let keep_off = 0.3 + 8.0 * c.tol as f64;
+    let (mut ins, mut outs) = (0, 0);
+    for j in 0..=44 {
+        for i in 0..=44 {
+            // a grid of 0.4 units over [-1,17]^2, off the lattice of whole and half units
+            let q = (c.tx as f64 - 0.93 + i as f64 * 0.41, c.ty as f64 - 0.87 + j as f64 * 0.41);
+            let (qx, qy) = (q.0 as f32, q.1 as f32);
+            let q = (qx as f64, qy as f64);
+            if crate::geom::dist_outline(&polys, q, true) < keep_off {
+                o.undecided += 1;
+                continue;
+            }
+            let wn = crate::geom::winding(&polys, q);
+            let want = if c.path.evenodd { wn & 1 != 0 } else { wn != 0 };
+            let got = path.contains_point(c.tol, qx, qy);
+            o.judged += 1;
+            if want {
+                ins += 1
+            } else {
+                outs += 1
+            }
+            if got != want {
+                return Err(format!(
+                    "shape moved by ({}, {}): contains_point({}, {}, {}) = {} but the point has winding number {} about the outline and lies {:.3} units from it",
+                    c.tx,
+                    c.ty,
+                    c.tol,
+                    qx,
+                    qy,
+                    got,
+                    wn,
+                    crate::geom::dist_outline(&polys, q, true)
+                ));
+            }
+        }
+    }
+    o.nontrivial = ins > 0 && outs > 0;
+    o.class_if(c.path.has_curves(), "curves");
+    o.class_if(c.tx.abs().max(c.ty.abs()) >= 2000.0, "more-than-2000-units-from-the-origin");
+    o.class_if(c.tx == 0.0 && c.ty == 0.0, "at-the-origin");
+    Ok(o)
+}
+
+fn far_strategy() -> BoxedStrategy<FarCase> {
+    let t = || prop_oneof![1 => Just(0i32), 3 => 1000i32..=3900, 3 => -3900i32..=-1000, 1 => -1000i32..=1000];
+    (prop_oneof![3 => curvy_path(16.0), 1 => poly_path(16.0)], t(), t(), prop::sample::select(vec![0.1f32, 0.05, 0.01, 0.25]))
+        .prop_map(|(path, tx, ty, tol)| FarCase { path, tx: tx as f32, ty: ty as f32, tol })
+        .boxed()
+}
+
 pub fn property(_ctx: &Ctx) -> Property {
     Property {
         id: "C17",
-        rule: "part lattice: polygons with integer vertices in [-6,6] (1-3 subpaths, 2-7 vertices, open/closed, either orientation, self-intersecting, duplicates, segments after close, missing leading move_to), both rules, the whole configuration multiplied by 2^k (k = 0 mostly, -30..16: tiny and large coordinates, exact in f32), queried with flattening tolerances from 1e-6 to 30 (irrelevant for polygons: same answers required); every one of the 1089 half-integer lattice points of [-8,8]^2 is queried and compared with an exact integer winding number + on-segment computation (f32 arithmetic is exact on this lattice). part fill: float polygons and curves rendered at 4x on 64x64; contains_point must be true at centres of pixels whose 3x3 neighbourhood is fully painted and false where it is untouched. Non-trivial: polygon with >=2 segments and >=1 query level with a vertex or on a segment (lattice) / >=1 inside and >=1 outside judged pixel (fill); distinct by hash of the case.",
+        rule: "part lattice: polygons with integer vertices in [-6,6] (1-3 subpaths, 2-7 vertices, open/closed, either orientation, self-intersecting, duplicates, segments after close, missing leading move_to), both rules, the whole configuration multiplied by 2^k (k = 0 mostly, -30..16: tiny and large coordinates, exact in f32), queried with flattening tolerances from 1e-6 to 30 (irrelevant for polygons: same answers required); every one of the 1089 half-integer lattice points of [-8,8]^2 is queried and compared with an exact integer winding number + on-segment computation (f32 arithmetic is exact on this lattice). part fill: float polygons and curves rendered at 4x on 64x64; contains_point must be true at centres of pixels whose 3x3 neighbourhood is fully painted and false where it is untouched. part far: float polygons and curves within 16 units moved by whole amounts of up to +-3900 units; a 45 x 45 grid of queries around the shape, judged against the f64 winding number of the moved outline wherever the query is more than 0.3 + 8 x tolerance from it (edge tests that multiply absolute coordinates lose the answer there). Non-trivial: polygon with >=2 segments and >=1 query level with a vertex or on a segment (lattice) / >=1 inside and >=1 outside judged pixel (fill); distinct by hash of the case.",
         assumptions: vec![
             "a query that coincides only with a zero-length segment (and is not inside) is not judged",
             "fill part: only pixel centres farther than 1.5 px from the f64 outline and with a uniform 3x3 neighbourhood are judged (contains_point flattens at its own tolerance)",
             "after close the cursor is the subpath's starting point (as in filling, C08/C16)",
         ],
-        parts: vec![part("lattice", 16_000, 400_000, lattice_strategy, check_lattice), part("fill", 10_000, 200_000, fill_strategy, check_fill)],
+        parts: vec![part("lattice", 16_000, 400_000, lattice_strategy, check_lattice), part("fill", 10_000, 200_000, fill_strategy, check_fill), part("far", 6_000, 150_000, far_strategy, check_far)],
         min_class_fraction: vec![("lattice", "line-after-close", 0.05), ("lattice", "horizontal-edge", 0.2), ("lattice", "tiny-coordinates", 0.1), ("lattice", "tolerance-larger-than-edges", 0.2), ("fill", "curves", 0.4)],
         panic_is_violation: false,
     }
